@@ -2,6 +2,7 @@
 
 from dataclasses import fields
 from enum import Enum
+from importlib import import_module
 from typing import Optional, Type, Union, cast
 
 from frozendict import frozendict
@@ -114,5 +115,19 @@ class Serializer:
 
     def deserialize_class(self, serialized_class: jsonable) -> Type:
         cls_module, cls_name = cast(str, serialized_class).rsplit('.', 1)
-        module = __import__(cls_module, fromlist=[cls_name])
-        return getattr(module, cls_name)
+        cls_path = [cls_name]
+        while True:
+            try:
+                obj = import_module(cls_module)
+                break
+            except ModuleNotFoundError as ex:
+                # The class may be nested inside other classes (its
+                # qualified name contains dots), so the module is a
+                # shorter prefix of the serialized name.
+                if ex.name != cls_module or '.' not in cls_module:
+                    raise
+                cls_module, outer_cls_name = cls_module.rsplit('.', 1)
+                cls_path.insert(0, outer_cls_name)
+        for name in cls_path:
+            obj = getattr(obj, name)
+        return obj
